@@ -56,6 +56,17 @@ def export_and_recompile(doc, fmt, strip, numbered):
         shutil.rmtree(d, ignore_errors=True)
 
 
+def shared_category(flow):
+    """a switch router in which two cases name the same category (the exporter writes one edge per category)"""
+    for n in flow["nodes"]:
+        r = n.get("router")
+        if r and r.get("type") == "switch":
+            cats = [k["category_uuid"] for k in r.get("cases", [])]
+            if len(cats) != len(set(cats)):
+                return True
+    return False
+
+
 def unconnected_case(flow):
     """a router case whose category's exit leads nowhere (the exporter cannot express it)"""
     for n in flow["nodes"]:
@@ -258,6 +269,8 @@ def judge(ctx, doc, nontrivial, samples, label):
                 key = "unconnected-non-default-category"
             elif is_padded:
                 key = "padded-edge-columns"
+            elif shared_category(flow) and "decision signatures differ" in str(tr[-1]):
+                key = "cases-sharing-a-category"
             elif split_with_result_name(flow):
                 key = "split-result-name-lost"
             elif only_case_order_differs(flow, f2):
